@@ -187,6 +187,37 @@ func pathString(p jpath) string {
 	return sb.String()
 }
 
+// boundarySchemas: every number of a schema set, one at a time, to the values at which integer arithmetic on it wraps
+// (the JSON schemas only bound these numbers from below): a schema the library accepts may say "the rest of the line"
+// or "a column that is never there" this way, and must be served like any other.
+var boundaryNumbers = []string{"9223372036854775807", "9223372036854775806", "4611686018427387904", "2147483648"}
+
+type boundarySchema struct {
+	Desc   string
+	Schema []byte
+}
+
+func boundarySchemas(schema []byte) []boundarySchema {
+	var root interface{}
+	if json.Unmarshal(schema, &root) != nil {
+		return nil
+	}
+	var paths []jpath
+	collectPaths(root, nil, &paths)
+	var out []boundarySchema
+	for _, p := range paths {
+		if _, ok := getAt(root, p).(float64); !ok {
+			continue
+		}
+		for _, v := range boundaryNumbers {
+			m := setAt(deepCopyJSON(root), p, json.Number(v), false)
+			mb, _ := json.Marshal(m)
+			out = append(out, boundarySchema{"number " + pathString(p) + " = " + v, mb})
+		}
+	}
+	return out
+}
+
 // c03-drive <out.ndjson> <nSchemaMut per schema> <nInputMut per schema>
 func c03Drive(args []string) int {
 	nsm, nim := 60, 40
@@ -315,6 +346,10 @@ func c03Drive(args []string) int {
 			}
 			mb, _ := json.Marshal(m)
 			record("schema-mutation", s.Name, desc, mb, in, runRobust(mb, in))
+		}
+		// (1b) every number of the schema at the integer boundaries, exhaustively
+		for _, b := range boundarySchemas(s.Schema) {
+			record("schema-boundary", s.Name, b.Desc, b.Schema, in, runRobust(b.Schema, in))
 		}
 		// (2) input mutations on the accepted schema
 		for k := 0; k < nim; k++ {
